@@ -7,7 +7,7 @@ driver commands of the tokeniser / format-detection slice (trusted glue, no theo
 
     splitquote  line stop lower      → stop' (kind text)*          kind = P | Q, stop = "" for None
     splitparen  line open close      → (kind text)*                kind = P | B (ParenString)
-    srm         line lower           → status text applied (key value)*   status = ok | keyerror
+    srm         line lower [legacy|repaired] → status text applied (key value)*   status = ok | keyerror
     srcinfo     source               → free | fixed
     tokenlex    table-name           → mismatches total first-bad   (Generated/TokenLex tables)
 -/
@@ -38,8 +38,12 @@ def handle (cmd : String) (args : List String) : Option String :=
         match s with
         | .plain t => [enc "P", encL t]
         | .paren t => [enc "B", encL t]))
-  | "srm", [line, lower] =>
-    match stringReplaceMap (decL line) (flagOf lower) with
+  | "srm", line :: lower :: disc =>
+    let d := match disc.map dec with
+      | ["repaired"] => Discipline.repaired
+      | ["legacy"] => Discipline.legacy
+      | _ => discipline
+    match stringReplaceMapWith d (decL line) (flagOf lower) with
     | none => some (ok [enc "keyerror"])
     | some r =>
       some (ok (enc "ok" :: encL r.text :: encL (applyMap r.map r.text)
